@@ -244,6 +244,13 @@ var programs = []prog{
 	{Name: "unpack-map-nonscalar", Src: "%{**%{[2]: 1, [1]: 2, 5: 0}, **%{[1]: 9}}.A"},
 	{Name: "obj-eq", Src: "[{a: 1, b: 2, c: 3} == {c: 3, b: 2, a: 1}, {a: 1, b: 2} == {a: 1, b: 3}, {a: 1} == {a: 1, b: 2}]"},
 	{Name: "map-eq", Src: "[%{1: 2, 3: 4, 5: 6} == %{5: 6, 3: 4, 1: 2}, %{1: 2, 3: 4} == %{1: 2, 3: 5}, %{[1]: 1, [2]: 2} == %{[2]: 2, [1]: 1}]"},
+	// equality of containers whose elements have an own `==` (traced / raising for a non-U operand)
+	{Name: "map-eq-traced-elements", Src: "U := {'==: m{|o| (\"eq\" + .id.S).p; .id == o.id}}\n%{'a: U.bear({id: 1}), 'b: U.bear({id: 2}), 'c: U.bear({id: 3})} == %{'a: U.bear({id: 1}), 'b: U.bear({id: 2}), 'c: U.bear({id: 3})}"},
+	{Name: "map-eq-unequal-and-raising-element", Src: "U := {'==: m{|o| .id == o.id}}\n(%{'owner: U.bear({id: 7}), 'count: 1} == %{'owner: nil, 'count: 2}).try.A"},
+	{Name: "map-eq-two-unequal-traced", Src: "U := {'==: m{|o| (\"eq\" + .id.S).p; .id == o.id}}\n%{'a: U.bear({id: 1}), 'b: U.bear({id: 2})} == %{'a: U.bear({id: 8}), 'b: U.bear({id: 9})}"},
+	{Name: "obj-eq-traced-elements", Src: "U := {'==: m{|o| (\"eq\" + .id.S).p; .id == o.id}}\n{a: U.bear({id: 1}), b: U.bear({id: 2}), c: U.bear({id: 3})} == {a: U.bear({id: 1}), b: U.bear({id: 2}), c: U.bear({id: 3})}"},
+	{Name: "obj-eq-unequal-and-raising-element", Src: "U := {'==: m{|o| .id == o.id}}\n({owner: U.bear({id: 7}), count: 1} == {owner: nil, count: 2}).try.A"},
+	{Name: "map-nonscalar-eq-traced", Src: "U := {'==: m{|o| (\"eq\" + .id.S).p; .id == o.id}}\n%{[1]: U.bear({id: 1}), [2]: U.bear({id: 2})} == %{[2]: U.bear({id: 2}), [1]: U.bear({id: 1})}"},
 	{Name: "print-map", Src: "%{\"b\": 1, \"a\": 2, 3: 4, nil: 5}.p\n%{\"b\": 1, \"a\": 2, 3: 4}.S"},
 	{Name: "print-map-tie", Src: "%{1.0000001: 'a, 1.0000002: 'b}.S"},
 	{Name: "print-map-tie-3", Src: "%{1.00000011: 1, 1.00000012: 2, 1.00000013: 3}.p"},
